@@ -38,6 +38,19 @@ def finding_class(row, binding, obs=None):
     return None
 
 
+def extra_rule_expected(row, binding):
+    """(rule, violated?) for the ordinary marker written next to the cel marker (corpus rows only; int comparisons and required)"""
+    m = re.search(r"//govalid:(gt|gte|lt|lte)=(-?\d+)", row.get("extra") or "")
+    vm = re.match(r"value=(-?\d+) ", binding)
+    if m and vm:
+        x, n = int(vm.group(1)), int(m.group(2))
+        holds = {"gt": x > n, "gte": x >= n, "lt": x < n, "lte": x <= n}[m.group(1)]
+        return m.group(1), not holds
+    if "//govalid:required" in (row.get("extra") or "") and row["ftype"] == "string":
+        return "required", binding.startswith('value="" ')
+    return None
+
+
 def harness_rows(tier, seed, n=None, race=False):
     work = C.scratch("gvcel")
     try:
@@ -75,6 +88,31 @@ def ctx_check(res):
         r, k, result, calls = bad[0]
         res.violation("ctx-cel", {"kind": "ctx-cel", "what": "ValidateContext under a context that is done from its Err() call #%d on (%d calls were made) returned %s instead of context.Canceled" % (k, calls, result),
                                   "type": r["ftype"], "expression": r["expr"], "extra_markers": r.get("extra", ""), "source": r.get("source", ""), "count": len(bad)}, True)
+        return False
+    return True
+
+
+def extra_rule_check(res):
+    """C07 on fields that carry a cel rule NEXT TO an ordinary rule (incl. pairs that compile to the same Go condition):
+    the report must list the ordinary rule exactly when the value violates it, and errors.Is must agree with the listed types."""
+    rows = [r for r in harness_rows(res.tier, res.seed, n=0) if "id" in r and r.get("extra")]
+    n, bad = 0, []
+    for r in rows:
+        for obs, v in zip(r.get("obs") or [], r.get("values") or []):
+            exp = extra_rule_expected(r, v)
+            if exp is None:
+                continue
+            n += 1
+            types = obs.split(",") if obs not in ("ok", "panic", "mutated", "other", "is-mismatch") else []
+            if obs == "is-mismatch" or (exp[0] in types) != exp[1]:
+                bad.append((r, v, obs, exp))
+    res.cov["distribution"]["cel+rule fields: reports checked"] = n
+    res.cov["evaluations"] += n
+    if bad:
+        r, v, obs, exp = bad[0]
+        res.violation("cel-report", {"kind": "cel", "type": r["ftype"], "expression": r["expr"], "binding": v, "extra_markers": r["extra"],
+                                     "what": "the report lists %s; //govalid:%s is %s by this value" % (obs, exp[0], "violated" if exp[1] else "satisfied"),
+                                     "emitted_condition": r.get("cond", ""), "source": r.get("source", ""), "count": len(bad)}, True)
         return False
     return True
 
@@ -211,11 +249,21 @@ def run(res):
             evaluations += 1
             bump("reference:" + ref)
             nontrivial.add((r["ftype"], r["expr"], v))
+            types = obs.split(",") if obs not in ("ok", "panic", "mutated", "other", "is-mismatch") else []
+            got = "ok" if obs == "ok" else ("cel" if "cel" in types else ("ok" if types else obs))
             want = "ok" if ref == "true" else "cel"
-            if obs != want:
+            if got != want:
                 bad = True
                 concrete.append((r, v, "reference CEL = %s but the generated check %s" % (
-                    ref, {"ok": "does not report the CEL error", "cel": "reports the CEL error", "panic": "panics"}.get(obs, obs)), finding_class(r, v, obs)))
+                    ref, {"ok": "does not report the CEL error", "cel": "reports the CEL error", "panic": "panics"}.get(got, got)), finding_class(r, v, obs)))
+            # the other rule written on the same field must be reported exactly when it is violated
+            exp = extra_rule_expected(r, v)
+            if exp is not None:
+                rule, violated = exp
+                if (rule in types) != violated:
+                    bad = True
+                    concrete.append((r, v, "the field also carries //govalid:%s, which is %s by this value, but the report lists %s" % (
+                        rule, "violated" if violated else "satisfied", obs), None))
         bump("outcome:" + ("disagrees" if bad else "agrees"))
     res.cov["evaluations"] = evaluations
     res.cov["distinct_nontrivial"] = len(nontrivial)
